@@ -12,7 +12,7 @@ def run(ctx):
     RH.new_pair_guards(ctx, "R09.e")
     RH.marker_provenance(ctx, "R09.f")
     RH.split_nonempty(ctx, "R09.g")
-    RK.sibling_agreement(ctx, "R15.b", "R15.c")
+    RK.sibling_agreement(ctx, "R15.b", "R15.c", stages_too=False)
     return info("R09.a: abstract walk of every loop-iteration / exit path of the title builder: markers are emitted as left, exactly "
                 "one source slice, right, every path ends closed; R09.b: spans are word.slice.0 + subslice.{0,1}, the match is "
                 "looked up by word offset, every WordMatch is built with subslice.0 = 0; R09.c: empty query passes, no match => "
